@@ -15,15 +15,24 @@ CONCS = {
 }
 
 
-def histories(cfg, timeout=1800):
-    """-> (TlcResult, [history]) - the maximal histories of the model (length MaxLen, or ended by a refusal)"""
+def histories(cfg, timeout=1800, limit=None, seed=0):
+    """-> (TlcResult, [history]) - the maximal histories of the model (length MaxLen, or ended by a refusal); with `limit`,
+    a seeded sample of that many (cfg may be a tuple (cfg, limit, seed): the call then runs in a process of its own)"""
+    if isinstance(cfg, tuple):
+        cfg, limit, seed = cfg
     r, states = tlc.dump_states("HandlesMC", cfg, workers=8, timeout=timeout)
     hs = [s["hist"] for s in states]
+    del states
+    r.raw = r.raw[-4000:]
     seen = set()
     for h in hs:
         if len(h) > 1:
             seen.add(repr(h[:-1]))
     out = [h for h in hs if h and repr(h) not in seen]
+    r.total_histories = len(out)
+    if limit is not None and len(out) > limit:
+        import random
+        out = random.Random(seed).sample(out, limit)
     return r, out
 
 
